@@ -450,15 +450,24 @@ func main() {
 	}
 
 	// ---- rules file, flattened rule list in load order
-	var rb strings.Builder
+	// the rules are spread over three rules files loaded one after the other (load order = file order, then source order)
+	var rbs [3]strings.Builder
+	rfile := 0
 	line := 1
 	w := func(s string) {
-		rb.WriteString(s)
+		rbs[rfile].WriteString(s)
 		line += strings.Count(s, "\n")
 	}
+	cut1 := 1 + rng.Intn(len(defs)/2)
+	cut2 := cut1 + 1 + rng.Intn(len(defs)-cut1-1)
 	w("package gorules\n\nimport \"github.com/quasilyte/go-ruleguard/dsl\"\n\n")
 	var rules []ruleSpec
 	for di, d := range defs {
+		if di == cut1 || di == cut2 {
+			rfile++
+			line = 1
+			w("package gorules\n\nimport \"github.com/quasilyte/go-ruleguard/dsl\"\n\n")
+		}
 		group := fmt.Sprintf("c%d", di)
 		w(fmt.Sprintf("func %s(m dsl.Matcher) {\n\tm.MatchComment(\n", group))
 		var altLines []int
@@ -662,10 +671,11 @@ func main() {
 		}
 		targets = append(targets, &target{path: path, src: src, file: f, pkg: pkg, info: info})
 	}
-	e, err := hutil.LoadEngine(fset, map[string]string{"rules.go": rb.String()}, []string{"rules.go"})
+	e, err := hutil.LoadEngine(fset, map[string]string{"rules0.go": rbs[0].String(), "rules1.go": rbs[1].String(), "rules2.go": rbs[2].String()},
+		[]string{"rules0.go", "rules1.go", "rules2.go"})
 	if err != nil {
 		fmt.Fprintln(os.Stderr, "load:", err)
-		fmt.Fprintln(os.Stderr, rb.String())
+		fmt.Fprintln(os.Stderr, rbs[0].String(), rbs[1].String(), rbs[2].String())
 		os.Exit(3)
 	}
 	// comment texts as the parser delivers them, by (file, offset)
